@@ -22,9 +22,16 @@ func DrawDAG(r *rng.R) *Entry {
 	if r.Chance(1, 40) {
 		nin = []int{33, 65, 70, 130}[r.Intn(4)] // wide signatures: per-input tables, bit sets over inputs
 	}
+	// a sixth of the graphs work on rank-3 activations [batch, sequence, 3] with both leading axes dynamic
+	rank3 := nin <= 2 && r.Chance(1, 6)
 	vals := []string{}
 	for i := 0; i < nin; i++ {
 		nm := fmt.Sprintf("x%d", i)
+		if rank3 {
+			m.Inputs = append(m.Inputs, mb.IO{Name: nm, DT: val.Float32, Shape: []int64{0, 0, 3}})
+			vals = append(vals, nm)
+			continue
+		}
 		m.Inputs = append(m.Inputs, mb.IO{Name: nm, DT: val.Float32, Shape: []int64{0, 3}})
 		vals = append(vals, nm)
 	}
@@ -48,6 +55,9 @@ func DrawDAG(r *rng.R) *Entry {
 		kind := r.Intn(11)
 		if nn > 30 && kind >= 3 && kind != 10 {
 			kind = r.Intn(3)
+		}
+		if rank3 {
+			kind = []int{0, 1, 2, 3, 6, 11, 11}[r.Intn(7)]
 		}
 		switch kind {
 		case 0:
@@ -97,6 +107,11 @@ func DrawDAG(r *rng.R) *Entry {
 			m.Inits = append(m.Inits, mb.Init{Name: bb, V: RandF32(r, []int{1}, -1, 1), Raw: r.Bool()})
 			m.Nodes = append(m.Nodes, mb.Node{Op: "Conv", In: []string{mid, k, bb}, Out: []string{mid2}})
 			n = mb.Node{Op: "Squeeze", In: []string{mid2, ax}}
+		case 11:
+			// the dense-layer idiom on a sequence: MatMul with a [3,3] weight, then Add of a rank-1 bias
+			mid := out + "_mm"
+			m.Nodes = append(m.Nodes, mb.Node{Op: "MatMul", In: []string{src, newWeight([]int{3, 3})}, Out: []string{mid}})
+			n = mb.Node{Op: "Add", In: pick(r, []string{mid, newWeight([]int{3})}, []string{newWeight([]int{3}), mid})}
 		case 9:
 			// positional-embedding idiom: a [1,3] weight expanded to the run-time shape of an activation and added to it
 			// (for batch 1 the expansion is a no-op and Expand hands the weight itself on)
@@ -149,9 +164,14 @@ func DrawDAG(r *rng.R) *Entry {
 	if nin <= 2 && r.Chance(1, 12) {
 		b1 = []int{10, 11, 12, 21, 31, 101}[r.Intn(6)]
 	}
-	for _, b := range []int{b1, b1, b2} {
+	for k, b := range []int{b1, b1, b2} {
 		set := map[string]*val.V{}
 		for i := 0; i < nin; i++ {
+			if rank3 {
+				// same batch size throughout, another sequence length in the third set
+				set[fmt.Sprintf("x%d", i)] = RandF32(r, []int{b1, []int{2, 2, 4}[k] + b2 - 1, 3}, -2, 2)
+				continue
+			}
 			set[fmt.Sprintf("x%d", i)] = RandF32(r, []int{b, 3}, -2, 2)
 		}
 		e.InputSets = append(e.InputSets, set)
